@@ -244,6 +244,23 @@ func genRewrites(d *lexDoc, r *rand.Rand, all bool, perKind int) []*rewrite {
 		ln := r4[k]
 		out = append(out, &rewrite{kind: "R4-trailing", site: fmt.Sprintf("line %d after %s", ln+1, lastOnLine[ln].Type), content: insertLines(c, d.lineEnd(ln), []string{" ", "\t", "   "}[r.Intn(3)])})
 	}
+	// R4 on an empty line inside a Description text: the line stays a line without text
+	var emptyInText []int
+	for _, l := range d.lex {
+		if l.Type != "text" || l.End < l.Begin {
+			continue
+		}
+		first, last := d.lineOf(l.Begin), d.lineOf(l.End)
+		for ln := first + 1; ln < last; ln++ {
+			if d.lineEnd(ln) == d.lines[ln] {
+				emptyInText = append(emptyInText, ln)
+			}
+		}
+	}
+	for _, k := range choose(len(emptyInText)) {
+		ln := emptyInText[k]
+		out = append(out, &rewrite{kind: "R4-trailing", site: fmt.Sprintf("empty line %d inside a Description text", ln+1), content: insertLines(c, d.lineEnd(ln), []string{" ", "\t", "   ", "  \t "}[r.Intn(4)])})
+	}
 	// R5 quote a bare parameter
 	var params []int
 	for i, l := range d.lex {
@@ -616,6 +633,12 @@ func C08(c *fw.Ctx) {
 		}
 		for name, content := range ruleRejectedDocs() {
 			add(name, content)
+		}
+		// Description texts with empty lines inside, in every place a Description may stand, plain and in parentheses
+		for i, dsc := range []string{"    first\n\n    second\n", "    first\n\n\n      deeper\n\n    back\n", "  (\n    first\n\n    second\n  )\n", "    - item\n\n      continued\n\n    - item 2\n"} {
+			add(fmt.Sprintf("description-with-empty-lines-%d-method", i), []byte("JSIGHT 0.3\nGET /a\n  Description\n"+dsc+"  200 any\n"))
+			add(fmt.Sprintf("description-with-empty-lines-%d-info", i), []byte("JSIGHT 0.3\nINFO\n  Title \"t\"\n  Description\n"+dsc+"GET /a\n  200 any\n"))
+			add(fmt.Sprintf("description-with-empty-lines-%d-tag", i), []byte("JSIGHT 0.3\nTAG @g\n  Description\n"+dsc+"GET /a\n  Tags @g\n  200 any\n"))
 		}
 		r := gen.Rng(c.Seed, c.ID, "models")
 		for i := 0; i < c.Pick(200, 3000); i++ {
